@@ -13,14 +13,14 @@ def make_content(resource, version, size):
     """Exactly `size` bytes when size >= minimal header, else a short literal (size 0/1 supported)."""
     if size == 0:
         return b""
-    head = ("SIM1|%s|v%d|%d|" % (resource, version, size)).encode()
+    head = ("SIM1|%s|v%d|%d|" % (resource, version, size)).encode("utf-8", "surrogateescape")
     tail = b"|END"
     if size < len(head) + len(tail):
         # too small to be self-describing: deterministic filler that still depends on resource+version
-        h = hashlib.sha256(("%s|%d" % (resource, version)).encode()).digest()
+        h = hashlib.sha256(("%s|%d" % (resource, version)).encode("utf-8", "surrogateescape")).digest()
         return (h * (size // len(h) + 1))[:size]
     n = size - len(head) - len(tail)
-    seed = hashlib.sha256(("%s#%d" % (resource, version)).encode()).digest()
+    seed = hashlib.sha256(("%s#%d" % (resource, version)).encode("utf-8", "surrogateescape")).digest()
     body = (seed * (n // len(seed) + 1))[:n]
     if resource.startswith("sparse") and n >= 16384:
         # a gridded field that is mostly fill value: the middle three quarters of the object are zero bytes
